@@ -343,3 +343,15 @@ Proof.
   cbn zeta. unfold guard, W_ok. cbn [cW cn cbits clocal].
   repeat split; try lia; try (vm_compute; reflexivity).
 Qed.
+
+(* ================================================================== returns and throws are logged consistently
+   in every reachable state a call of f that has returned for a throwing index is recorded as thrown, and
+   from then on every completion is an error — a value can never follow a throw that has happened *)
+From Pika Require Import Proofs.BulkExitLog.
+
+Theorem C11_returned_throw_means_error : forall cf sched, guard cf ->
+  let g := fst (brun cf sched) in
+  forall x, In x (exits g) -> cthrows cf x = true ->
+  In x (thrown g) /\ forall s, In s (sigs g) -> exists y, sg s = SError (Some y).
+Proof. exact returned_throw_means_error. Qed.
+Print Assumptions C11_returned_throw_means_error.
